@@ -1622,7 +1622,8 @@ impl<'a, R: FileManager> FrontendCtx<'a, R> {
                 if let AddressedQualifiedType::WillBeUsedForEnumItem { enum_type, address } = ty {
                     let found = enum_type.members.iter().find(|it| match &it.id {
                         TsEnumMemberId::Ident(ident) => &ident.sym == member_name,
-                        TsEnumMemberId::Str(_) => unreachable!(),
+                        // `enum E { "a-b" = 1 }`: a string-named member, reachable as E["a-b"]
+                        TsEnumMemberId::Str(s) => s.value.to_string_lossy() == member_name.as_str(),
                     });
                     return match found.and_then(|it| it.init.clone()) {
                         Some(init) => self.typeof_expr(&init, true, address.file.clone()),
@@ -2526,7 +2527,7 @@ impl<'a, R: FileManager> FrontendCtx<'a, R> {
                         }
                         let Some(enum_value) = from_enum.members.iter().find(|it| match &it.id {
                             TsEnumMemberId::Ident(i) => i.sym == *key,
-                            TsEnumMemberId::Str(_) => unreachable!(),
+                            TsEnumMemberId::Str(s) => s.value.to_string_lossy() == *key,
                         }) else {
                             return self.error(&anchor, DiagnosticInfoMessage::EnumMemberNotFound);
                         };
@@ -2725,7 +2726,7 @@ impl<'a, R: FileManager> FrontendCtx<'a, R> {
             AddressedQualifiedValue::Enum(ts_enum_decl, bff_file_name) => {
                 let Some(enum_value) = ts_enum_decl.members.iter().find(|it| match &it.id {
                     TsEnumMemberId::Ident(i) => i.sym == *member,
-                    TsEnumMemberId::Str(_) => unreachable!(),
+                    TsEnumMemberId::Str(s) => s.value.to_string_lossy() == *member,
                 }) else {
                     return self.error(anchor, DiagnosticInfoMessage::EnumMemberNotFound);
                 };
